@@ -352,9 +352,16 @@ func (pg *progGen) blockInner(g *Graph, from string, cond *Cond, outPos int, dep
 		ls := g.addNode(&Node{ID: d.fresh("LS"), Kind: "xor"})
 		g.connect(d, tc.ID, ls.ID, nil, -1)
 		lx := g.addNode(&Node{ID: d.fresh("LX"), Kind: "xor"})
-		g.connect(d, ls.ID, lm.ID, &Cond{LtVar: iv, Lt: count}, -1)
-		df := g.connect(d, ls.ID, lx.ID, nil, -1)
-		ls.Default = df.ID
+		if pg.d.Bool() {
+			// the loop is left over a condition and continued over the split's default flow
+			df := g.connect(d, ls.ID, lm.ID, nil, -1)
+			ls.Default = df.ID
+			g.connect(d, ls.ID, lx.ID, &Cond{LtVar: iv, Lt: count, Ge: true}, -1)
+		} else {
+			g.connect(d, ls.ID, lm.ID, &Cond{LtVar: iv, Lt: count}, -1)
+			df := g.connect(d, ls.ID, lx.ID, nil, -1)
+			ls.Default = df.ID
+		}
 		fmt.Fprintf(&pg.desc, "%s ) ", tc.ID)
 		return lx.ID, f.ID
 	case "condtask":
